@@ -120,6 +120,26 @@ CHECKS["C14"] = (
     "The variance estimator convention (ddof) is learned from the first observation and then required to stay fixed; float64 world.",
     "DESIGN.md section 3 C14")
 
+CHECKS["C12"] = (
+    "metamorphic monitor over pairs of executions: whole batch vs rows alone (batch size 1) vs a permuted batch vs the same row among "
+    "extreme in-domain companions vs duplicated rows, for forward / inverse / log_prob / transform_to_noise of transforms, flows and "
+    "distributions in eval mode, every variant on a fresh never-called deep copy of the model",
+    "Row-wise agreement to 1e-9 (float64) between the variants for the whole transform zoo (2-D and image inputs, with/without "
+    "context, never-initialised ActNorm included), generic / packaged flows and all distribution classes; companions straddle the tail "
+    "bounds and domain end-points so that inside/outside masks differ between the variants.",
+    "Evaluation mode only (as stated); UMNN inverse to its declared bisection resolution; piecewise-linear inverses kept off exact knots.",
+    "DESIGN.md section 3 C12")
+CHECKS["C13"] = (
+    "TorchDispatchMode write-watch on every public call (schema is_write flags x storage identity of caller tensors, parameters, "
+    "buffers) + bitwise before/after snapshots (incl. the storage surrounding views) + history-independence monitor (every call of a "
+    "random call sequence vs the same call on a fresh never-called copy, bit for bit)",
+    "For transforms, flows and distributions in eval and training mode, inputs/context presented plain, as slices of a larger tensor, "
+    "non-contiguous and as requires_grad leaves: no ATen op may write into caller or (eval) model storage, snapshots must be bit-identical, "
+    "training-mode writes must be on the documented statistics only, and results must not depend on earlier calls (mixed operations, mixed "
+    "event shapes on shape-agnostic transforms). ~5e5 ATen ops / 1e4 in-place writes observed per quick run.",
+    "Trusts ATen schema write annotations; with weight caching on, a 1e-12 difference from the cache fill order is tolerated (C10 owns caching).",
+    "DESIGN.md section 3 C13")
+
 PENDING_REASON = "check not built yet in this session (planned, see DESIGN.md section 3); not claimed until it exists and is calibrated"
 
 
